@@ -8,21 +8,21 @@ package witness
 
 //@ guarded [C14,C15] witness.logState.mu: checkpoint, nextEntry, mirrorCheckpoint
 
-//@ func witness.(*Witness).stateForOrigin props C14 C15
+//@ func witness.(*Witness).stateForOrigin props C14 C15 C16
 //@   requires w != nil && !held(&w.logsMu)
 //@   defines ret1 ==> ret0 == stateOf(w, origin) && ret0 != nil
 //@   ensures !held(&w.logsMu)
 
 // The verifier list a submitted checkpoint is opened with is built, per request, from the configured keys of exactly
 // the origin named in the request (no list shared between logs).
-//@ func witness.(*Witness).verifiersForOrigin props C14 C15
+//@ func witness.(*Witness).verifiersForOrigin props C14 C15 C16
 //@   requires w != nil && !held(&w.logsMu)
 //@   init gVLCalls == 0
 //@   call note.VerifierList requires [C14,C15] list-is-the-one-collected-from-this-origins-key-map: c_list == verifiers && gVLCalls == 0
 //@   ensures [C14,C15] leaves-the-lock-free: !held(&w.logsMu)
 //@   returns [C14,C15] a-fresh-list-for-this-request: ret1 ==> (gVLCalls == 1 && ret0 == gVLRet)
 
-//@ func witness.(*Witness).updateCheckpoint props C14
+//@ func witness.(*Witness).updateCheckpoint props C14 C16
 //@   requires w != nil && w.c != nil && submitted != nil && !held(&w.logsMu) && !held(&stateOf(w, origin).mu)
 //@   init gReplaceTried == 0 && gReplaceOK == 0 && gUp == emptyset("set[string]") && gUpTried == emptyset("set[string]")
 //@   call ctlog.LockBackend.Replace requires [C14] size-on-record: known.N == oldSize && oldSize <= newSize
@@ -51,7 +51,7 @@ package witness
 // checkpoint record); new records are only ever created empty.
 //@ census [C14,C15] lock-replace-sites: callers ctlog.LockBackend.Replace within witness.(*Witness).updateCheckpoint, witness.(*Witness).processAddEntriesCommit, witness.(*Witness).PullLogList in witness
 //@ census [C14,C15] lock-create-sites: callers ctlog.LockBackend.Create within witness.(*Witness).PullLogList, witness.NewWitness in witness
-//@ func witness.(*Witness).PullLogList props C14 C15
+//@ func witness.(*Witness).PullLogList props C14 C15 C16
 //@   requires w != nil && w.c != nil
 //@   init gReplaceTried == 0
 //@   call ctlog.LockBackend.Replace requires [C14,C15] only-the-configuration-record-is-rewritten: c_old == oldConfig && c_new == newConfig && gReplaceTried == 0
@@ -59,7 +59,7 @@ package witness
 //@ census [C14] update-callers: callers witness.(*Witness).updateCheckpoint within witness.(*Witness).processAddCheckpointRequest in witness
 //@ pure func stateOf(w Ref, origin string) *witness.logState
 
-//@ func witness.(*Witness).processAddCheckpointRequest props C14
+//@ func witness.(*Witness).processAddCheckpointRequest props C14 C16
 //@   requires w != nil && w.c != nil && !held(&w.logsMu)
 //@   requires forall o string :: !held(&stateOf(w, o).mu)
 //@   call witness.(*Witness).updateCheckpoint requires [C14] log-signature-verified: openedBy(n, noteBytes, v) && c == ckptOf(n.Text) && c.Extension == ""
@@ -69,7 +69,7 @@ package witness
 
 // HTTP front ends: each request is decided on exactly the bytes read from its own body, by one call of the request
 // processor, and only that call's signature bytes are written back (and only when it reported no error).
-//@ func witness.(*Witness).serveSignSubtree props C16
+//@ func witness.(*Witness).serveSignSubtree props C14 C16
 //@   requires w != nil && w.c != nil && w.s2 != nil && r != nil && !held(&w.logsMu)
 //@   requires forall o string :: !held(&stateOf(w, o).mu)
 //@   call io.ReadAll requires [C16] reads-this-requests-body: c_r == r.Body
@@ -78,7 +78,7 @@ package witness
 //@   call witness.(*Witness).processSignSubtreeRequest bind sigs = ret0
 //@   call witness.(*Witness).processSignSubtreeRequest bind procErr = ret1
 //@   call http.ResponseWriter.Write requires [C16] writes-only-this-requests-cosignatures: c_recv == rw && c_arg1 == sigs && procErr == nil
-//@ func witness.(*Witness).serveAddCheckpoint props C14
+//@ func witness.(*Witness).serveAddCheckpoint props C14 C16
 //@   requires w != nil && w.c != nil && r != nil && !held(&w.logsMu)
 //@   requires forall o string :: !held(&stateOf(w, o).mu)
 //@   call io.ReadAll requires [C14] reads-this-requests-body: c_r == r.Body
